@@ -105,7 +105,7 @@ func LeafValues(t Type, n int) []Val {
 	case TInt:
 		out = []Val{IntV(0), IntV(1), IntV(-1), IntV(42), IntV(math.MaxInt64), IntV(math.MinInt64), IntV(1 << 53)}
 	case TFloat:
-		out = []Val{FloatV(1.5), FloatV(2), FloatV(0), FloatV(-0.25), FloatV(1e15), FloatV(0.1), FloatV(-3)}
+		out = []Val{FloatV(1.5), FloatV(6.02214076e23), FloatV(2), FloatV(0), FloatV(-0.25), FloatV(0.30000000000000004), FloatV(1e15), FloatV(0.1), FloatV(-3)}
 	case TBool:
 		out = []Val{BoolV(true), BoolV(false)}
 	case TStr:
@@ -656,6 +656,9 @@ func EqPool(t Type, width, max int, clash bool) []Val {
 				add(replaceAt(v, tp.Path, RangeV(tp.V.RS, tp.V.RE+1, tp.V.RIncl)))
 			case TFloat:
 				add(replaceAt(v, tp.Path, FloatV(float64(tp.V.F)+0.5)))
+				// the closest distinct values: equality must be exact, not approximate
+				add(replaceAt(v, tp.Path, FloatV(math.Nextafter(float64(tp.V.F), math.Inf(1)))))
+				add(replaceAt(v, tp.Path, FloatV(float64(tp.V.F)*(1+6e-10)+5e-324)))
 			case TInt:
 				if tp.V.I < math.MaxInt64 {
 					add(replaceAt(v, tp.Path, IntV(tp.V.I+1)))
